@@ -75,6 +75,8 @@ type sim struct {
 	nops      int
 	park      *parkedCall // the Consume call currently parked in NotEmpty (at most one)
 	preSnap   *snapshot   // "before" of the next op, taken before its goroutines were started
+	dormant   map[int]bool // groups that exist (ConsumerGroupNames) but were not looked up since reopenlazy
+	expect    map[int]gpos // what such a group must come back as
 }
 
 // parkedCall is a Consume call running on its own goroutine, blocked in Queue.NotEmpty.
@@ -92,7 +94,10 @@ func (s *sim) snap() snapshot {
 	return sn
 }
 
-func (s *sim) open() error {
+func (s *sim) open() error { return s.openMode(false) }
+
+// openMode: lazy = the groups are only listed (ConsumerGroupNames), none is looked up.
+func (s *sim) openMode(lazy bool) error {
 	fq, err := queue.NewFanOutQueue(s.dir, 1024)
 	if err != nil {
 		return err
@@ -100,10 +105,16 @@ func (s *sim) open() error {
 	s.fq = fq
 	s.gs = map[int]queue.ConsumerGroup{}
 	s.paused = map[int]bool{}
+	s.dormant = map[int]bool{}
+	s.expect = map[int]gpos{}
 	for _, n := range fq.ConsumerGroupNames() {
 		id, err := strconv.Atoi(n)
 		if err != nil {
 			return fmt.Errorf("unexpected group name %q", n)
+		}
+		if lazy {
+			s.dormant[id] = true
+			continue
 		}
 		g, err := fq.GetOrCreateConsumerGroup(n)
 		if err != nil {
@@ -193,13 +204,21 @@ func (s *sim) oracle(kind string, g int, n int64, res string, b, a snapshot, met
 				}
 			}
 		}
+		if (kind == "sync" || kind == "createsync") && a.ack != b.ack && !s.reset {
+			// groups that exist but were not looked up since the reopen count as well
+			for id := range s.dormant {
+				if e := s.expect[id]; a.ack > e.a {
+					s.fail("sync-queue-ack-above-unopened-group-ack", "%s moved the queue ack to %d; group %d exists (ConsumerGroupNames), was not looked up since the reopen and has ack %d", kind, a.ack, id, e.a)
+				}
+			}
+		}
 		if kind == "sync" && a.ack != b.ack {
 			for id, p := range b.g {
 				if a.ack > p.a {
 					s.fail("sync-queue-ack-above-group-ack", "sync moved queue ack to %d, live group %d has ack %d", a.ack, id, p.a)
 				}
 			}
-			if len(b.g) == 0 {
+			if len(b.g) == 0 && len(s.dormant) == 0 {
 				s.fail("sync-moved-queue-ack-without-groups", "queue ack %d -> %d with no live group", b.ack, a.ack)
 			}
 		}
@@ -209,7 +228,7 @@ func (s *sim) oracle(kind string, g int, n int64, res string, b, a snapshot, met
 	}
 	// frame: groups not addressed keep their positions; the set of live groups changes only by
 	// create / stop / reopen
-	if kind != "setapp" && kind != "reopen" {
+	if kind != "setapp" && kind != "reopen" && kind != "reopenlazy" {
 		for id, p := range b.g {
 			q, ok := a.g[id]
 			if !ok {
@@ -307,7 +326,15 @@ func (s *sim) oracle(kind string, g int, n int64, res string, b, a snapshot, met
 	case "create":
 		// (6) for stop + create: a group restored from its meta page gets the positions it had,
 		// except that both are lifted to the queue ack when they lie below it
-		if m, had := metaBefore[g]; had && !live && !s.reset {
+		if s.dormant[g] {
+			// first lookup since reopenlazy: the group was restored by NewFanOutQueue, nothing can
+			// have moved it since
+			if e := s.expect[g]; ap != e && !s.reset {
+				s.fail("reopen-changes-group-position", "group %d: %v when the queue was reopened, %v when first looked up afterwards (queue ack %d)", g, e, ap, a.ack)
+			}
+			delete(s.dormant, g)
+			delete(s.expect, g)
+		} else if m, had := metaBefore[g]; had && !live && !s.reset {
 			ea := m.a
 			if a.ack > ea {
 				ea = a.ack
@@ -342,6 +369,31 @@ func (s *sim) oracle(kind string, g int, n int64, res string, b, a snapshot, met
 	case "setapp":
 		if a.app != n || a.ack != n {
 			s.fail("set-appended-wrong", "setapp %d gave %d/%d", n, a.app, a.ack)
+		}
+	case "reopenlazy": // (6), judged when a group is looked up (case "create") and at every Sync
+		if a.app != b.app || a.ack != b.ack {
+			s.fail("reopen-changes-queue-position", "%d/%d -> %d/%d", b.app, b.ack, a.app, a.ack)
+		}
+		for id := range b.g {
+			if !s.dormant[id] {
+				s.fail("reopen-loses-group", "group %d is not listed by ConsumerGroupNames after reopen", id)
+			}
+		}
+		for id := range s.dormant {
+			m, had := metaBefore[id]
+			if !had {
+				s.fail("reopen-invents-group", "group %d listed after reopen was never created", id)
+				continue
+			}
+			// a stopped group whose positions lie below the queue ack is lifted to it when restored
+			if a.ack > m.a {
+				m.a = a.ack
+			}
+			if m.a > m.c {
+				m.c = m.a
+			}
+			s.expect[id] = m
+			s.meta[id] = m
 		}
 	case "reopen": // (6)
 		if a.app != b.app || a.ack != b.ack {
@@ -928,7 +980,7 @@ func (s *sim) caseParkedRandom(rng *rand.Rand) {
 // other groups; a third goroutine calls Sync + GC (blocked on lock4map in the pinned source);
 // then the store is released. One protocol line: the model runs create; sync; gc.
 func (s *sim) doCreateSync(g int, rng *rand.Rand, acks func()) {
-	if _, live := s.gs[g]; live || s.dead || s.park != nil {
+	if _, live := s.gs[g]; live || s.dead || s.park != nil || s.dormant[g] {
 		return
 	}
 	gt := armGate(fmt.Sprintf("/cg/%d/", g))
@@ -1190,6 +1242,77 @@ func (s *sim) caseRaceRandom(rng *rand.Rand) {
 	}
 }
 
+// doReopenLazy: Close ; NewFanOutQueue ; ConsumerGroupNames — no group is looked up.
+func (s *sim) doReopenLazy(rng *rand.Rand) {
+	if s.park != nil {
+		return
+	}
+	s.op("reopenlazy", -1, 0, "reopenlazy", func() string {
+		s.close()
+		if err := s.openMode(true); err != nil {
+			panic(err)
+		}
+		ids := make([]int, 0, len(s.dormant))
+		for id := range s.dormant {
+			ids = append(ids, id)
+		}
+		sort.Ints(ids)
+		ss := make([]string, len(ids))
+		for i, id := range ids {
+			ss[i] = strconv.Itoa(id)
+		}
+		return "ok names=" + strings.Join(ss, ",")
+	})
+	s.c.Branch("reopen-lazy")
+	s.readable("reopen", rng)
+}
+
+// lookupAll looks up every group that is still dormant (ascending).
+func (s *sim) lookupAll() {
+	ids := make([]int, 0, len(s.dormant))
+	for id := range s.dormant {
+		ids = append(ids, id)
+	}
+	sort.Ints(ids)
+	for _, id := range ids {
+		s.doCreate(id)
+	}
+}
+
+// caseLazyFixed: the schedule of seeded change c06-8 — two groups with different acks, reopen,
+// the faster one is looked up, Sync + GC, then the slower one.
+func (s *sim) caseLazyFixed(rng *rand.Rand) {
+	s.doCreate(0)
+	s.doCreate(1)
+	for i := 0; i < 12; i++ {
+		s.doAppend(i + 1)
+	}
+	for i := 0; i < 11; i++ {
+		s.doConsume(0)
+	}
+	s.doAck(0, 10)
+	for i := 0; i < 4; i++ {
+		s.doConsume(1)
+	}
+	s.doAck(1, 2)
+	s.doSync()
+	s.doReopenLazy(rng)
+	s.doSync() // nobody looked up yet
+	s.doCreate(0)
+	s.doConsume(0)
+	s.doSync()
+	s.doGC(rng)
+	s.get(3)
+	s.doCreate(1)
+	s.doConsume(1)
+	if h := s.gs[1]; h != nil && !s.dead {
+		s.get(h.ConsumedSeq())
+	}
+	s.doSync()
+	s.doGC(rng)
+	s.pages()
+}
+
 // scratch returns a fresh scratch directory; cases that write whole data pages prefer a
 // memory-backed file system when there is one.
 func scratch(big bool) (string, error) {
@@ -1249,6 +1372,8 @@ func (a area) Run(c *core.Ctx) error {
 				s.caseParkedRandom(rng)
 			case "race-fixed":
 				s.caseRaceFixed(rng)
+			case "lazy-fixed":
+				s.caseLazyFixed(rng)
 			case "race":
 				s.caseRaceRandom(rng)
 			default:
@@ -1283,6 +1408,8 @@ func caseKind(i int, tier string, rng *rand.Rand) string {
 		return "parked-forward"
 	case 6:
 		return "race-fixed"
+	case 7:
+		return "lazy-fixed"
 	}
 	if tier == "thorough" && i%40 == 7 {
 		return "pages"
@@ -1550,8 +1677,8 @@ func (s *sim) caseRandom(rng *rand.Rand, kind string) {
 				s.get(m)
 			}
 		case r < 90:
-			if !early {
-				s.doCreate(rng.Intn(ng))
+			if g2 := rng.Intn(ng); !early || s.dormant[g2] {
+				s.doCreate(g2)
 			}
 		case r < 93:
 			if ok && !early {
@@ -1583,15 +1710,28 @@ func (s *sim) caseRandom(rng *rand.Rand, kind string) {
 				s.get(int64(rng.Intn(40)) - 2)
 			}
 		default:
-			s.doReopen(rng)
+			if rng.Intn(5) < 2 {
+				s.doReopenLazy(rng)
+			} else {
+				s.doReopen(rng)
+			}
 		}
 		if reopenHeavy && !s.dead && rng.Intn(2) == 0 {
-			s.doReopen(rng)
+			if rng.Intn(3) == 0 {
+				s.doReopenLazy(rng)
+			} else {
+				s.doReopen(rng)
+			}
+		}
+		if len(s.dormant) > 0 && len(s.gs) == 0 && rng.Intn(2) == 0 && !s.dead {
+			s.lookupAll() // nothing can be addressed otherwise
 		}
 	}
 	if !s.dead {
 		s.doSync()
 		s.doGC(rng)
+		s.lookupAll()
+		s.doSync()
 		s.pages()
 	}
 }
